@@ -86,9 +86,10 @@ def plane_recipe(op):
     return name, kw, p, name in ("Tilt", "DispersiveTilt", "Grism")
 
 
-def make_plane(op, where="here"):
+def make_plane(op, where="here", extra=None):
     """the plane built in this process, or (where='foreign') built in another interpreter process and loaded here"""
     cls, kw, p, adds_tilt = plane_recipe(op)
+    kw = dict(kw, **(extra or {}))
     with warnings.catch_warnings():
         warnings.simplefilter("ignore")
         if where == "foreign":
@@ -232,18 +233,26 @@ def run_program(start, ops, ctx=None, variants=None, blocked=False, form="planes
             continue
         variant = variants[i] if variants is not None else variant_for(ops, i)
         where = f"step {i} ({op}, plane {variant}) on a {t} wavefront [program {start}: {' '.join(ops[:i + 1])}]"
+        extra = None
+        if TABLE[plane_recipe(op)[2]][t] is None and w.pixelscale is not None and (i + 2 * len(ops) + len(op)) % 3 == 0:
+            # a product the table does not allow is refused as a TYPE error whatever else is wrong with it: here the
+            # plane is also sampled differently from the wavefront (an image-plane mask in detector pixels applied to a
+            # pupil wavefront because the propagation was forgotten)
+            extra = {"pixelscale": 3.0 * float(np.broadcast_to(w.pixelscale, (2,))[0])}
+            if ctx is not None:
+                ctx.tag("refused_product_with_other_pixelscale")
         with lentil_call("C08.construct", f"constructing {op} ({variant})"):
-            plane, p, adds_tilt = make_plane(op, "foreign" if variant == "foreign" else "here")
+            plane, p, adds_tilt = make_plane(op, "foreign" if variant == "foreign" else "here", extra)
             if name_of(op) in ("pupil", "image", "none", "tilt", "transform") and (i + len(ops)) % 2:
                 # plane type given as the lentil.<type> object instead of its name (for the foreign variant: a type
                 # object that was created in the other process, given to a plane built here)
                 tobj = foreign.call("lentil.ptype", name_of(op)) if variant == "foreign" else getattr(lentil, name_of(op))
-                plane = lentil.Plane(amplitude=np.ones((N, N)) if name_of(op) in ("pupil", "image") else 1, ptype=tobj)
+                plane = lentil.Plane(amplitude=np.ones((N, N)) if name_of(op) in ("pupil", "image") else 1, ptype=tobj, **(extra or {}))
             plane = derive(plane, variant)
         if str(plane.ptype) != p:
             raise Violation("C08.class.ptype", f"{op}: instance has ptype '{plane.ptype}', documented '{p}'")
-        before_p = snap_p(plane)
         expect = TABLE[p][t]
+        before_p = snap_p(plane)
         try:
             new = w * plane
         except TypeError as e:
